@@ -41,6 +41,35 @@ pub open spec fn sct_ext_post(i: Seq<u8>, r: IResult<&[u8], TlsExtension>) -> bo
         _ => false,
     }
 }
+// <[T]>::to_vec: a Vec of the clones of the elements, in order (ASSUMED: specification of the std function)
+pub assume_specification<T: Clone>[ <[T]>::to_vec ](s: &[T]) -> (r: Vec<T>)
+    ensures r@.len() == s@.len(), forall|k: int| 0 <= k < s@.len() ==> call_ensures(T::clone, (&s@[k],), #[trigger] r@[k]);
+// psk_key_exchange_modes (RFC 8446 4.2.9): ke_modes<1..255>, u8-prefixed; copied out byte for byte
+pub open spec fn psk_modes_post(i: Seq<u8>, r: IResult<&[u8], TlsExtension>) -> bool {
+    if i.len() < 1 || i.len() < 1 + i[0] as int { is_incomplete(r) }
+    else { match r { Ok((rem, TlsExtension::PskExchangeModes(v))) => v@ =~= i.subrange(1, 1 + i[0] as int) && rem@ =~= i.subrange(1 + i[0] as int, i.len() as int), _ => false } }
+}
+// version list helper (iterator adapters, outside Verus's reach): ASSUMED with exactly the contract Kani leaf_tls_versions
+// checks on the compiled code: the whole input is the list; odd length rejected
+pub open spec fn versions_post(i: Seq<u8>, r: IResult<&[u8], Vec<TlsVersion>>) -> bool {
+    if i.len() % 2 == 1 { r is Err && r->Err_0 is Error }
+    else { match r { Ok((rem, v)) => rem@.len() == 0 && v@.len() == i.len() / 2 && (forall|k: int| 0 <= k < i.len() / 2 ==> (#[trigger] v@[k]).0 as int == be16s(i, 2 * k)), Err(_) => false } }
+}
+// supported_versions (RFC 8446 4.2.1): ServerHello form = one version (ext_len == 2); ClientHello form = a length byte
+// (read and ignored) followed by the version list on exactly the remaining ext_len - 1 bytes; ext_len == 0 rejected
+pub open spec fn supported_versions_post(i: Seq<u8>, ext_len: u16, r: IResult<&[u8], TlsExtension>) -> bool {
+    if ext_len == 2 {
+        if i.len() < 2 { is_incomplete(r) }
+        else { match r { Ok((rem, TlsExtension::SupportedVersions(v))) => v@.len() == 1 && v@[0].0 as int == be16s(i, 0) && rem@ =~= i.subrange(2, i.len() as int), _ => false } }
+    } else if i.len() < 1 { is_incomplete(r) }
+    else if ext_len == 0 { r is Err && r->Err_0 is Error && r->Err_0->Error_0.code == ErrorKind::Verify }
+    else { let n = ext_len as int - 1;
+        if i.len() < 1 + n { is_incomplete(r) }
+        else { exists|inner: IResult<&[u8], Vec<TlsVersion>>| #[trigger] versions_post(i.subrange(1, 1 + n), inner) && match inner {
+            Ok((_, l)) => (match r { Ok((rem, TlsExtension::SupportedVersions(v))) => v == l && rem@ =~= i.subrange(1 + n, i.len() as int), _ => false }),
+            Err(e) => r == Err::<(&[u8], TlsExtension), Err<Error<&[u8]>>>(e),
+        } } }
+}
 // encrypted_server_name (draft-ietf-tls-esni): cipher suite u16, named group u16, key_share<u16>, record_digest<u16>, encrypted_sni<u16>
 pub open spec fn fld16_ok(i: Seq<u8>, o: int) -> bool { 0 <= o && i.len() >= o + 2 && i.len() >= o + 2 + be16s(i, o) }
 pub open spec fn fld16_next(i: Seq<u8>, o: int) -> int { o + 2 + be16s(i, o) }
@@ -127,6 +156,37 @@ UNIT = {
                      {"after": r"let \(i, record_digest\) = [^;]*;", "text": "    let ghost o2: int = fld16_next(i0, o1);\n    proof { assert(fld16_ok(i0, o1)); assert(record_digest@ =~= i0.subrange(o1 + 2, o2)); assert(i@ =~= i0.subrange(o2, i0.len() as int)); }"},
                      {"after": r"let \(i, encrypted_sni\) = [^;]*;", "text": "    let ghost o3: int = fld16_next(i0, o2);\n    proof { assert(fld16_ok(i0, o2)); assert(encrypted_sni@ =~= i0.subrange(o2 + 2, o3)); assert(i@ =~= i0.subrange(o3, i0.len() as int)); }"}],
          "contract": "    ensures esni_post(i@, r),"},
+        {"file": F_EXT, "kind": "fn", "name": "parse_tls_extension_psk_key_exchange_modes_content", "contract": "    ensures psk_modes_post(i@, r),",
+         "splices": [{"at_start": True, "text": "    let ghost i0 = i@;\n    proof { reveal_with_fuel(be_val, 2); }"},
+                     {"after": r"let \(i, v\) = [^;]*;", "text": "    let ghost vv = v@;\n    proof { assert(vv =~= i0.subrange(1, 1 + i0[0] as int)); assert(i@ =~= i0.subrange(1 + i0[0] as int, i0.len() as int)); }"}],
+         # R11 on the returned expression: the copied vector bound to a local so that the hint can name it
+         "subst": [(r"Ok\(\(i, TlsExtension::PskExchangeModes\(v\.to_vec\(\)\)\)\)", "let vec_copy = v.to_vec();\n    proof { assert forall|k: int| 0 <= k < vv.len() implies vec_copy@[k] == vv[k] by { assert(call_ensures(u8::clone, (&v@[k],), vec_copy@[k])); } assert(vec_copy@ =~= vv); }\n    Ok((i, TlsExtension::PskExchangeModes(vec_copy)))")]},
+        {"file": "src/tls_handshake.rs", "kind": "fn", "name": "parse_tls_versions", "external_body": True, "contract": "    ensures versions_post(i@, r),",
+         "subst": [(r"pub\(crate\) fn parse_tls_versions", "pub fn parse_tls_versions")]},
+        {"file": F_EXT, "kind": "fn", "name": "parse_tls_extension_supported_versions_content", "contract": "    ensures supported_versions_post(i@, ext_len, r),",
+         "subst": [(r"fn parse_tls_extension_supported_versions_content\(\s*i: &\[u8\],\s*ext_len: u16,\s*\) -> IResult<&\[u8\], TlsExtension>", "fn parse_tls_extension_supported_versions_content<'a>(i: &'a [u8], ext_len: u16) -> IResult<&'a [u8], TlsExtension<'a>>"),
+                   # R9: closure signature explicit, with its contract
+                   # R11: the operand of `?` bound to a local first
+                   (r"let \(i, l\) = map_parser\(take\(ext_len - 1\), parse_tls_versions\)\(i\)\?;", """let ghost i2 = i;
+        let res = map_parser(take(ext_len - 1), parse_tls_versions)(i);
+        proof {
+            let n = ext_len as int - 1;
+            let r1 = choose|r1: IResult<&[u8], &[u8]>| #[trigger] take_post(n, i2@, r1) && match r1 {
+                Ok((rem, o1)) => exists|r2: IResult<&[u8], Vec<TlsVersion>>| #[trigger] versions_post(o1@, r2) && res == (match r2 { Ok((_, o2)) => Ok::<(&[u8], Vec<TlsVersion>), Err<Error<&[u8]>>>((rem, o2)), Err(e) => Err(e) }),
+                Err(e) => res == Err::<(&[u8], Vec<TlsVersion>), Err<Error<&[u8]>>>(e) };
+            if r1 is Ok {
+                let rem = r1->Ok_0.0; let o1 = r1->Ok_0.1;
+                assert(o1@ =~= i0.subrange(1, 1 + n));
+                assert(rem@ =~= i0.subrange(1 + n, i0.len() as int));
+                let r2 = choose|r2: IResult<&[u8], Vec<TlsVersion>>| #[trigger] versions_post(o1@, r2) && res == (match r2 { Ok((_, o2)) => Ok::<(&[u8], Vec<TlsVersion>), Err<Error<&[u8]>>>((rem, o2)), Err(e) => Err(e) });
+                assert(versions_post(i0.subrange(1, 1 + n), r2));
+            }
+        }
+        let (i, l) = res?;"""),
+                   (r"\|x\| \{\s*TlsExtension::SupportedVersions\(vec!\[TlsVersion\(x\)\]\)\s*\}", "|x: u16| -> (e: TlsExtension<'a>) ensures e is SupportedVersions && e->SupportedVersions_0@ =~= seq![TlsVersion(x)] { TlsExtension::SupportedVersions(vec![TlsVersion(x)]) }")],
+         "splices": [{"at_start": True, "text": "    let ghost i0 = i@;\n    proof { reveal_with_fuel(be_val, 3); }"},
+                     {"after": r"let \(i, _\) = be_u8\(i\)\?;", "text": "    proof { assert(i@ =~= i0.subrange(1, i0.len() as int)); }"},
+                     {"after": r"let \(i, l\) = [^;]*;", "text": "    proof { let n = ext_len as int - 1; assert(i@ =~= i0.subrange(1 + n, i0.len() as int)); }"}]},
         empty("parse_tls_extension_encrypt_then_mac_content", "EncryptThenMac"),
         empty("parse_tls_extension_extended_master_secret_content", "ExtendedMasterSecret"),
         empty("parse_tls_extension_post_handshake_auth_content", "PostHandshakeAuth"),
